@@ -519,6 +519,37 @@ def run_case(case, ctx):
     p_open = signac.Project(b.root)
     for d in sorted(table):
         judge("open_job(id).statepoint()", d, lambda: p_open.open_job(id=d).statepoint())
+        # one handle used again after its first access failed (a caller that catches the error and retries),
+        # and init() through it: still never a state point that does not hash to the directory name
+        try:
+            hd = signac.Project(b.root).open_job(id=d)
+        except Exception:
+            continue
+        judge("open_job(id).statepoint(), first access", d, lambda: hd.statepoint())
+        judge("second access to .statepoint on the same handle", d, lambda: hd.statepoint())
+        judge("third access (.sp) on the same handle", d, lambda: hd.sp())
+        judge(".cached_statepoint on the same handle", d, lambda: dict(hd.cached_statepoint))
+        fn_sp = os.path.join(ws, d, SP_FILE)
+        before_b = _read(fn_sp)
+        try:
+            hd.init()
+        except Exception:
+            pass
+        after_b = _read(fn_sp)
+        if after_b != before_b:
+            c2 = classify(ws, d)
+            if c2["cls"] != "ok":
+                mms.append(Mismatch(
+                    "open_accepts_wrong_statepoint",
+                    "init() through a handle opened by id wrote %r into the state point file of job directory %s (%s), "
+                    "which is %s; %s" % (after_b, d[:8], table[d]["cls"], c2["cls"], what)))
+            # put the fault back for the repair stage
+            if before_b is None:
+                os.remove(fn_sp)
+            else:
+                with open(fn_sp, "wb") as f:
+                    f.write(before_b)
+        judge(".statepoint after init() on the same handle", d, lambda: hd.statepoint())
     for route, get in (("iteration + job.statepoint()", lambda j: j.statepoint()), ("iteration + job.cached_statepoint", lambda j: dict(j.cached_statepoint))):
         p_it = signac.Project(b.root)
         try:
